@@ -321,16 +321,16 @@ RULE = ("generated programs whose handlers are generators built from yield delay
         "combinator, parked process carrying hooks, yield-from depth>=2, double resolve")
 
 OBLIGATIONS = [
-    Obligation("proc", case_strategy(False), execute_factory("proc"), {"quick": 2000, "thorough": 120000}, RULE),
-    Obligation("futures", case_strategy(True), execute_factory("futures"), {"quick": 2000, "thorough": 120000},
+    Obligation("proc", case_strategy(False), execute_factory("proc"), {"quick": 1500, "thorough": 120000}, RULE),
+    Obligation("futures", case_strategy(True), execute_factory("futures"), {"quick": 1500, "thorough": 120000},
                "same generator biased towards futures and combinators (>=2 futures, no past-stamped emits); same rule"),
-    Obligation("fanin", fanin_strategy, ex_fanin, {"quick": 2000, "thorough": 100000},
+    Obligation("fanin", fanin_strategy, ex_fanin, {"quick": 1500, "thorough": 100000},
                "2-5 leaf futures shared by up to 6 waiter processes, each waiting on its own any_of/all_of tree (depth <= 3, repeated leaves) "
                "built at a generated half tick; leaves are resolved one per integer tick (double resolves, None values, some never); a small "
                "model of the combinator semantics gives every waiter's resumption instant and the set of acceptable values (several inputs "
                "settled at construction: any of them); independent of the order in which one resolve wakes several waiters; non-trivial = "
                "two waiters share a leaf and at least two waiters resumed"),
-    Obligation("float", float_strategy, ex_float, {"quick": 1200, "thorough": 60000},
+    Obligation("float", float_strategy, ex_float, {"quick": 1000, "thorough": 60000},
                "one process yielding arbitrary finite float delays (0, sub-microsecond, fractions, up to 1e6 s) with and without "
                "side-effect events; resume offset must be floor/ceil of the exact delay in ns and side-effect events are delivered "
                "at the yield instant; non-trivial = a non-integer or sub-microsecond delay"),
